@@ -424,6 +424,11 @@ fn main() {
     cov.insert("exhaustive".into(), json!(true));
     cov.insert("rule".into(), json!(format!(
         "(A) all 256 content types x all 65536 declared lengths (quick tier: 12 types with all lengths, the other 244 types with ~800 boundary lengths) at cut points {{0..6, 5+len/2, 5+len-1, 5+len, 5+len+1, 5+len+7}} for parse_tls_encrypted / parse_tls_raw_record; the same for parse_tls_plaintext on 8 content types (complete records only at 76 boundary lengths); (B) every prefix of records of the boundary lengths (middle of long records every 97th byte in quick); (C) all 65536 versions; (D) complete records whose payload is every string of length <= {} over a per-type positional alphabet; (D') each of those payloads also as the available part of a longer record (1, 4 and 300 bytes missing); (H) truncated records beginning with a whole first message of each of the 256 handshake / heartbeat / alert type bytes x 5 body sizes x 3 patterns followed by a second message, 4 missing-byte counts; (I) records whose payload is every prefix length (dense to 700 [2200], around 2^14 and the cap, sparse between) of 25 long message streams, complete / with trailing bytes / one byte short; (G) SSLv2-compatible ClientHellos (5 versions x 6 cipher-spec lengths x 2 session-id lengths x 3 challenge lengths) and the openings of 10 other protocols, at 45 cut points each; (F) all 65536 versions x 9 declared lengths around the cap x 2 types (truncated buffers); (E) records of 8 lengths x 4 types followed by trailing data such that the buffer size crosses 2^16, 2^17 and 2^20 (+-6 bytes, with and without the record length). Oracle: reference framing (Incomplete iff strict prefix with exact Needed, TooLarge above 2^14+256, exact consumption, header fields, payload and remainder by position) plus the strict record walker. Non-trivial: everything but inputs cut inside the 5-byte header", maxn)));
+    // the same check against the crate built with all cargo features (std, serialize, unstable)
+    let mut sink = sink;
+    if run.tier == Tier::Thorough {
+        run.all_features_variant(&mut sink);
+    }
     let code = run.finish(
         &sink,
         cov,
